@@ -74,7 +74,7 @@ def describe(c):
 
 def run(pid, tier, seed, replay):
     ck = Check(pid, tier, seed, level="proof")
-    n, exh, coq_cap = (500, 3, 8000) if tier == "quick" else (6000, 5, 40000)
+    n, exh, coq_cap = (300, 3, 2400) if tier == "quick" else (6000, 5, 40000)
     proof_ok = ck.proof_step()
     ok, out, dt = vlib.cargo_build("h_physplan", bin="c14")
     ck.log("cargo build h_physplan --bin c14: ok=%s (%.0fs)" % (ok, dt))
@@ -93,10 +93,14 @@ def run(pid, tier, seed, replay):
         if not c["ok"]:
             ck.fail_input(describe(c), c)
     # ---- correspondence: model output == implementation output, exactly (every page, every resume offset)
+    # the oracle above sees every case; the model sees every non-paged case and an even sample of the paged runs
     corr = cases
-    if len(corr) > coq_cap:      # thorough tier: the oracle sees everything, the model an even sample
-        step = len(corr) / float(coq_cap)
-        corr = [corr[int(i * step)] for i in range(coq_cap)]
+    if len(corr) > coq_cap:
+        rest = [c for c in cases if c["k"] != "paged" or not c["pre"]]
+        paged = [c for c in cases if c["k"] == "paged" and c["pre"]]
+        room = max(coq_cap - len(rest), coq_cap // 2)
+        step = max(1.0, len(paged) / float(room))
+        corr = rest + [paged[int(i * step)] for i in range(min(room, len(paged)))]
     if True:  # the model is definitions only, so it still runs when a proof breaks
         pre = "From DF Require Import Base.Prelude Model.JoinHashMap.\nOpen Scope Z_scope."
         bad, log, dt = vlib.coq_eval_cases(pre, "c14_case", "c14_check", [render(c) for c in corr], shard=400, tag="c14")
